@@ -15,7 +15,12 @@ Which values an element selects is taken from its documentation (docstrings of `
 The converters are stubs: `pdflatex`, `pdftoppm` and the `create_command` target are recording shell scripts in a
 temporary directory that is the ONLY entry of PATH while the harness runs (the real programs cannot be reached).
 LaTeXToPDF yields finished pdfs whenever its process pool reports them (documented), so for it the outputs for A are
-compared as a multiset and the position of pdfs relative to unselected values is not constrained."""
+compared as a multiset and the position of pdfs relative to unselected values is not constrained.
+
+Failure ids are "<Element>/<clause of the property>/<class of the unselected value>", classes: bare, pair (unrelated
+context), disabled (output.write / output.to_csv / histogram.to_graph False), lookalike (near miss of the element's own
+selection), already-written (Write: data == the path it would write), written-elsewhere (Write: data ==
+context.output.filepath produced by a Write with another output directory; a scope of its own)."""
 import atexit
 import io
 import itertools
@@ -54,6 +59,7 @@ _STUBS = {
 
 def cleanup():
     global ROOT
+    _WORK.clear()
     if ROOT and os.path.isdir(ROOT):
         try:
             os.chdir("/")
@@ -272,6 +278,7 @@ class Config(object):
         self.spawn = spawn
         self.seld = dict(sel)
         self.unseld = dict((n, (c, f)) for n, c, f in unsel)
+        self.note = ""
 
 
 def configs():
@@ -517,7 +524,10 @@ def written_elsewhere_config():
         ("written_elsewhere_dirname", "written-elsewhere", lambda k: ("other/sub/g.csv", {"output": {
             "filename": "g", "fileext": "csv", "filetype": "csv", "dirname": "sub", "filepath": "other/sub/g.csv"}})),
     ]
-    return Config("Write('out') after Write('other')", "Write", lambda: Write("out", verbose=False), base.sel, unsel, base.prep)
+    cfg = Config("Write('out') after Write('other')", "Write", lambda: Write("out", verbose=False), base.sel, unsel, base.prep)
+    cfg.note = ("; the unselected values are (path, context) pairs with data == context.output.filepath written by another Write "
+                "with another output_directory, which Write.run documents as skipped (yielded unchanged)")
+    return cfg
 
 
 _CONFIGS = None
@@ -543,21 +553,68 @@ def _source(values, res):
         yield v
 
 
+_WORK = {}
+
+
+def build(cfg, w):
+    """(re)create the prepared working directory of a configuration from scratch"""
+    os.chdir(ROOT)
+    if os.path.isdir(w["dir"]):
+        shutil.rmtree(w["dir"], ignore_errors=True)
+    if os.path.isdir(w["dir"]):  # could not be removed (a stray child still writes there): leave it to the final cleanup
+        n = next(_counter)
+        w["dir"], w["log"] = os.path.join(ROOT, "w%d" % n), os.path.join(ROOT, "w%d.log" % n)
+    os.mkdir(w["dir"])
+    os.chdir(w["dir"])
+    cfg.prep()
+    os.utime(".", (OLD, OLD))
+    w["pristine"] = snapshot()
+    w["verify"] = False
+
+
+def repair(w, cur):
+    """undo what a run did to the working directory (checked against the pristine snapshot before the next run)"""
+    pristine = w["pristine"]
+    for p in sorted((p for p in cur if p not in pristine), key=len, reverse=True):
+        if cur[p][0] == "f":
+            os.remove(p)
+        else:
+            os.rmdir(p)
+    for p, v in pristine.items():
+        if v[0] == "d" and not os.path.isdir(p):
+            os.makedirs(p)
+    for p, v in pristine.items():
+        if v[0] == "f" and cur.get(p) != v:
+            with open(p, "wb") as f:
+                f.write(v[1].encode("latin1"))
+            os.utime(p, ns=(v[2], v[2]))
+    for p, v in pristine.items():
+        if v[0] == "d":
+            os.utime(p, ns=(v[2], v[2]))
+    w["verify"] = True
+
+
 def execute(cfg, values):
-    """fresh directory, fresh element, one run over *values*"""
+    """one run of a fresh element over *values* in the working directory in its prepared state"""
     ensure_root()
-    rundir = os.path.join(ROOT, "r%d" % next(_counter))
-    log = rundir + ".log"
-    os.mkdir(rundir)
+    w = _WORK.get(cfg.name)
+    if w is None or w["root"] != ROOT or w.get("abandon"):
+        n = next(_counter)
+        w = {"root": ROOT, "dir": os.path.join(ROOT, "w%d" % n), "log": os.path.join(ROOT, "w%d.log" % n)}
+        _WORK[cfg.name] = w
+        build(cfg, w)
+    os.chdir(w["dir"])
+    if w["verify"] and snapshot() != w["pristine"]:
+        build(cfg, w)
+    w["verify"] = False
+    log = w["log"]
     open(log, "w").close()
     os.environ["C10_STUB_LOG"] = log
     res = Res()
     res.outs, res.pulled, res.exc = [], [], None
+    res.fs_before = w["pristine"]
     saved_out = sys.stdout
-    os.chdir(rundir)
     try:
-        cfg.prep()
-        res.fs_before = snapshot()
         sys.stdout = io.StringIO()
         try:
             with watchdog(cfg.wd):
@@ -573,14 +630,16 @@ def execute(cfg, values):
         res.fs_after = snapshot()
         with open(log) as f:
             res.log = f.read().splitlines()
+        if res.exc and cfg.spawn:
+            w["abandon"] = True  # converter stubs of the aborted run may still be writing: never reuse this directory / log
+        elif res.fs_after != w["pristine"]:
+            try:
+                repair(w, res.fs_after)
+            except OSError:
+                build(cfg, w)
     finally:
         sys.stdout = saved_out
         os.chdir(ROOT)
-        shutil.rmtree(rundir, ignore_errors=True)
-        try:
-            os.remove(log)
-        except OSError:
-            pass
     return res
 
 
@@ -797,21 +856,22 @@ def _body(R):
         _BASE.clear()
         # ---- every unselected kind alone, with no and with one selected value before / after it
         R.scope(cfg.name + " [each kind]",
-                "each of the %d unselected kinds (%s) alone and directly before/after each of the %d selected kinds (%s)"
-                % (len(un), ", ".join(un), len(sn), ", ".join(sn)), True)
-        for u in un:
+                "each of the %d unselected kinds (%s) alone and directly before/after %s of the %d selected kinds (%s)"
+                % (len(un), ", ".join(un), "each" if R.thorough else "one (rotating)", len(sn), ", ".join(sn)) + cfg.note, True)
+        for iu, u in enumerate(un):
             run_case(R, cfg, [], [u], "U")
-            for s in sn:
+            for s in (sn if R.thorough else [sn[iu % len(sn)]]):
                 run_case(R, cfg, [s], [u], "US")
                 run_case(R, cfg, [s], [u], "SU")
         # ---- all interleavings
         if R.thorough:
-            ustep = 2 if cfg.spawn else 1
+            size = len(sn) * len(un)
+            ustep = 3 if (cfg.spawn or size > 120) else 2 if size > 60 else 1
             combos = [(rs, ru) for rs in range(len(sn)) for ru in range(0, len(un), ustep)]
-            how = "every cyclic window of the selected kinds x every %s cyclic window of the unselected kinds" % (
-                "second" if ustep == 2 else "")
+            how = "every cyclic window of the selected kinds x the cyclic windows of the unselected kinds starting at every %s kind" % (
+                {1: "", 2: "second", 3: "third"}[ustep])
         else:
-            n = 2 if cfg.spawn else 3
+            n = 1 if cfg.spawn else 2
             combos = None
             how = "%d (selected window, unselected window) pairs per interleaving, windows advancing with the case number" % n
         R.scope(cfg.name + " [interleavings]",
